@@ -167,7 +167,9 @@ def extract_vars(statement):
 
     variables = [v for v in variables if v[2] != ""]
 
-    return sorted(list(set(variables)), key=lambda var: var[2])
+    # Sort by the name of the variable and then by the other attributes so that the
+    # order of the variables with the same name does not depend on the order of the set.
+    return sorted(list(set(variables)), key=lambda var: (var[2], var[0], var[1]))
 
 
 def func_has_ctx_arg(func):
